@@ -190,6 +190,9 @@ def run_case(kind, case):
     if kind == "concurcase":
         from vf import concur
         return concur.replay_cases(run_case, PROPERTY, case, CONCUR_FILES)
+    if kind == "histconcur":
+        from vf.runner import replay_histconcur
+        return replay_histconcur(run_case, PROPERTY, case, CONCUR_FILES, hist_ops)
     if kind == "interrupted":
         from vf import seqexplore
         return seqexplore.replay_interrupted(run_case, case)
@@ -198,6 +201,26 @@ def run_case(kind, case):
         return seqexplore.replay(run_case, case)
     return CASES[kind](case)
 
+
+def hist_ops(job):
+    """a long homogeneous history for E7: valid (signature, key, message) tuples under the keys of the small group in turn"""
+    cv = job["curve"]
+    C = smallcurve.curve(cv)
+    n = 1300 if job.get("tier") == "quick" else 4500
+    flag = 1
+    ops = []
+    i = 0
+    while len(ops) < n:
+        d = 1 + i % (C.n - 1)
+        msg = i.to_bytes(2, "big")
+        i += 1
+        z = int.from_bytes(h256(msg + flag.to_bytes(4, "little")), "big")
+        rs = valid_sig_for(C, d, z)
+        if rs is None:
+            continue
+        ops.append(("tuple", {"curve": cv, "sig": (D.encode(*rs) + bytes([flag])).hex(), "pk": enc_pk(C.mul(d, C.G), bool(i % 2)).hex(),
+                              "msg": msg.hex(), "what": f"valid, key {d}"}))
+    return ops
 
 def long_ops(job):
     """a valid tuple under EVERY key of the p=211 curve, and after each one the same signature under the NEXT key's public key
@@ -318,12 +341,14 @@ def jobs(tier, seed):
     js.append({"name": "secp/lows", "part": "real-lows", "weight": 4})
     from vf.runner import seq_jobs
     js += seq_jobs(4, curve=t43, weight=4)
+    from vf.runner import histconcur_jobs
+    js += histconcur_jobs(curve=list(smallcurve.TABLE[0]))
     from vf.runner import long_jobs
     js += long_jobs(curve=list(smallcurve.TABLE[5]))
     from vf.runner import interrupt_jobs
     js += interrupt_jobs(len(INTERRUPT_X), curve=t43)
     from vf.runner import concur_jobs
-    js += concur_jobs(len(CONCUR_SCEN) - (1 if tier == "quick" else 0), curve=t43)
+    js += concur_jobs(len(CONCUR_SCEN) - (1 if tier == "quick" else 0), curve=t43, deep=(tier == "thorough"))
     for i in range(2):
         js.append({"name": f"concurrent/{i}", "part": "concur", "curve": t43, "idx": i, "weight": 10})
     return js
@@ -353,6 +378,9 @@ def run_job(job):
         ops = seq_ops(dict(job, shard=[0, 1]))
         scens = [{"threads": [ops[i] for i in sc[0]], "warm": [ops[i] for i in sc[1]], "post": [ops[i] for i in (sc[2] if len(sc) > 2 else ())]} for sc in CONCUR_SCEN]
         return run_concur_job(job, scens, run_case, PROPERTY, CONCUR_FILES)
+    if job["part"] == "histconcur":
+        from vf.runner import run_histconcur_job
+        return run_histconcur_job(job, hist_ops(job), run_case, PROPERTY, CONCUR_FILES)
     if job["part"] == "longhist":
         from vf.runner import run_long_job
         return run_long_job(job, long_ops(job), run_case)
